@@ -183,7 +183,7 @@ fn tweak_first(g: &mut GenCfg, rng: &mut Rng) {
 
 fn tweak_ascii(g: &mut GenCfg, rng: &mut Rng) {
     // pattern alphabets deliberately contain non-ASCII characters and ASCII's non-ASCII partners
-    let mut a: Vec<u32> = "aksKS\n".chars().map(|c| c as u32).collect();
+    let mut a: Vec<u32> = "aksKS\n_1[{^~@`]}".chars().map(|c| c as u32).collect();
     let extra = [0x17F, 0x212A, 0x130, 0x131, 0xE9, 0x10000, 0xB5];
     for _ in 0..rng.range(0, 2) {
         a.push(*rng.pick(&extra));
@@ -191,6 +191,7 @@ fn tweak_ascii(g: &mut GenCfg, rng: &mut Rng) {
     rng.shuffle(&mut a);
     a.truncate(rng.range(2, 5));
     g.alphabet = a;
+    g.anchors = true;
 }
 
 
